@@ -216,6 +216,20 @@ func crashScenarios(r *rng, tier string) []crashScenario {
 			p.writeStage("t.yaml", &StageRec{Out: []Art{{Path: "more", IsDir: true}}})
 			p.dud("", "stage", "add", "t.yaml")
 		}),
+		mk("commit dir sharing content with an already committed object, cross-device", []string{"commit", "t.yaml"}, noRename, func(p *Project, r *rng) {
+			fileStage(p, r)
+			p.dud("", "commit", "--copy")
+			shared, _ := os.ReadFile(filepath.Join(p.Root, "one.bin"))
+			must(os.MkdirAll(filepath.Join(p.Root, "more"), 0o755))
+			must(os.WriteFile(filepath.Join(p.Root, "more", "same-bytes.bin"), shared, 0o644))
+			must(os.WriteFile(filepath.Join(p.Root, "more", "other.txt"), []byte("other"), 0o644))
+			p.writeStage("t.yaml", &StageRec{Out: []Art{{Path: "more", IsDir: true}}})
+			p.dud("", "stage", "add", "t.yaml")
+		}),
+		mk("commit file link cross-device, committed as a copy before", []string{"commit"}, noRename, func(p *Project, r *rng) {
+			fileStage(p, r)
+			p.dud("", "commit", "--copy")
+		}),
 		mk("checkout dir link", []string{"checkout"}, nil, func(p *Project, r *rng) {
 			dirStage(p, r)
 			p.dud("", "commit")
@@ -274,8 +288,27 @@ func crashScenarios(r *rng, tier string) []crashScenario {
 			p.writeStage("b.yaml", &StageRec{Cmd: "true", In: []Art{{Path: "mid.txt"}}, Out: []Art{{Path: "fin", IsDir: true}}})
 			p.dud("", "stage", "add", "a.yaml", "b.yaml")
 		}),
+		mk("commit pipeline, downstream stage named before an unrelated one", []string{"commit", "b.yaml", "c.yaml"}, nil, func(p *Project, r *rng) {
+			pipeline3(p, r)
+		}),
+		mk("commit pipeline, downstream stage named before its upstream stage", []string{"commit", "--copy", "b.yaml", "a.yaml", "c.yaml"}, nil, func(p *Project, r *rng) {
+			pipeline3(p, r)
+		}),
 	)
 	return out
+}
+
+// pipeline3: a -> b (b reads a's output), c on its own; nothing committed yet
+func pipeline3(p *Project, r *rng) {
+	must(os.WriteFile(filepath.Join(p.Root, "src.txt"), []byte("source"), 0o644))
+	must(os.WriteFile(filepath.Join(p.Root, "raw.txt"), r.bytes(40), 0o644))
+	must(os.WriteFile(filepath.Join(p.Root, "raw2.txt"), r.bytes(41), 0o644))
+	must(os.WriteFile(filepath.Join(p.Root, "fin.txt"), r.bytes(42), 0o644))
+	must(os.WriteFile(filepath.Join(p.Root, "side.txt"), r.bytes(43), 0o644))
+	p.writeStage("a.yaml", &StageRec{Cmd: "true", In: []Art{{Path: "src.txt"}}, Out: []Art{{Path: "raw.txt"}, {Path: "raw2.txt"}}})
+	p.writeStage("b.yaml", &StageRec{Cmd: "true", In: []Art{{Path: "raw.txt"}}, Out: []Art{{Path: "fin.txt"}}})
+	p.writeStage("c.yaml", &StageRec{Out: []Art{{Path: "side.txt"}}})
+	p.dud("", "stage", "add", "a.yaml", "b.yaml", "c.yaml")
 }
 
 func rawTriples(s, f, w *World) string {
